@@ -51,7 +51,7 @@ func (c Collection) TryEqual(other Collection) (bool, bool) {
 			return false, true
 		}
 		if !okOne {
-			return true, true
+			continue // equal complex elements: go on to the next pair
 		}
 		primitiveOne, err := From(c[i])
 		if err != nil {
